@@ -13,7 +13,7 @@ SAFE_NS = [("ex", "http://example.org/"), ("foo", "http://foo.org/ns#"), ("ex2",
            ("z", "urn:z:"), ("w3", "http://www.w3.org/other/")]
 CLASH_NS = [("ex", "http://other/"), ("ex_1", "http://a/b/"), ("dn", "http://dn/"), ("foo", "http://example.org/"),
             ("prov", "http://notprov/"), ("xsd", "http://notxsd/")]
-DEFAULT_URIS = ["http://default/", "http://example.org/"]
+DEFAULT_URIS = ["http://default/", "http://example.org/", "http://default3.example/d#", "http://default4.example/"]
 PROV_EXTRA = ["type", "label", "value", "location", "role"]
 KIND_TO_FACTORY = {"Entity": ["entity", "collection"], "Activity": ["activity"], "Agent": ["agent"],
                    "Generation": ["generation"], "Usage": ["usage"], "Start": ["start"], "End": ["end"],
@@ -339,6 +339,26 @@ class DocBuilder:
                 w.new_record(c, "Activity", a, [])
             w.new_record(c, "Generation", None, [("prov:entity", e), ("prov:activity", a)])
         return bh
+
+    def many_defaults(self, d):
+        """several default namespaces meet: the document has one, two bundles have two others, each names records by bare
+        local names in its own default namespace (what flattened() / update() / unified() must keep apart by URI)"""
+        g, w = self.g, self.w
+        uris = g.rng.sample(DEFAULT_URIS, 3)
+        if w.conts[d].get_default_namespace() is None:
+            w.set_default(d, uris[0])
+        out = []
+        for u in uris[1:]:
+            bh = self.new_bundle(d)
+            if not bh:
+                continue
+            if w.conts[bh].get_default_namespace() is None:
+                w.set_default(bh, u)
+            loc = "dflt%d" % g.rng.randint(0, 9)
+            w.new_record(bh, g.choice(["Entity", "Agent", "Activity"]), w.qname("", u, loc), [])
+            w.new_record(bh, "Entity", w.qname("", u, loc + "x"), [(w.qname("", u, "attr"), w.qname("", u, "val"))])
+            out.append(bh)
+        return out
 
     def mutate_in_place(self, roots, n=None, extend_records=True):
         """a later chapter of the same history: records are added / extended in place, namespaces are registered, after the
